@@ -29,7 +29,7 @@ def main():
     for a in sys.argv[1:]:
         if a.startswith("--seeds"):
             seeds = [int(t) for t in a.split("=")[1].split(",")]
-    src, name, props = Path(args[0]), args[1], args[2:]
+    src, name, props = Path(args[0]).resolve(), args[1], args[2:]
     wt = Path("/tmp/mutrun") / name
     if wt.exists():
         sh(["git", "-C", "/repo", "worktree", "remove", "--force", str(wt)])
